@@ -133,6 +133,13 @@ func c04KindsBase() []c04Kind {
 		{id: "stmts-ifbody", kind: "stmts", lit: map[string]string{"a": "a()", "b": "b.c = 1", "c": "for { a() }"}, mvar: "x()", meta: model.MetaVar{Name: "x", Kind: "identifier"},
 			dots: "DOTS_%d", sep: "; ", open: "if cond {", close: "}", eol: "", mark: "mark()", markX: "mark(x)",
 			fileOpen: "package p\n\nfunc _() {\n\tpre()\n\tif cond {", fileEnd: "}\n\tpost()\n}\n"},
+		// a single call is an expression pattern (pgo's rule); its function literal holds the statement list
+		{id: "stmts-funclit", kind: "expr", lit: map[string]string{"a": "a()", "b": "b.c = 1", "c": "if g(1) { a() }"}, mvar: "x()", meta: model.MetaVar{Name: "x", Kind: "identifier"},
+			dots: "DOTS_%d", sep: "; ", open: "run(func() {", close: "})", eol: "", mark: "mark()", markX: "mark(x)",
+			fileOpen: "package p\n\nfunc _() {\n\tpre()\n\tgo run(func() {", fileEnd: "})\n\tpost()\n}\n"},
+		{id: "stmts-ifbody-in-closure", kind: "stmts", lit: map[string]string{"a": "a()", "b": "b.c = 1", "c": "for { a() }"}, mvar: "x()", meta: model.MetaVar{Name: "x", Kind: "identifier"},
+			dots: "DOTS_%d", sep: "; ", open: "if cond {", close: "}", eol: "", mark: "mark()", markX: "mark(x)",
+			fileOpen: "package p\n\nfunc _() {\n\tpre()\n\tdefer func() {\n\t\tsetup()\n\t\tif cond {", fileEnd: "}\n\t}()\n\trun(func() {\n\t\tother()\n\t})\n}\n"},
 		{id: "stmts-case", kind: "stmts", lit: map[string]string{"a": "a()", "b": "b.c = 1", "c": "return"}, mvar: "x()", meta: model.MetaVar{Name: "x", Kind: "identifier"},
 			dots: "DOTS_%d", sep: "; ", open: "switch v {\ncase 1:", close: "}", eol: "", mark: "mark()", markX: "mark(x)",
 			fileOpen: "package p\n\nfunc _() {\n\tswitch v {\n\tcase 1:\n", fileEnd: "\n\t}\n}\n"},
